@@ -15,8 +15,12 @@ from vlib.tasks import basic
 BASE = ["--show-traceback", "--warn-unused-ignores", "--hide-error-context", "--no-pretty"]
 
 
+_CODE_SUFFIX = re.compile(r"  \[[a-z0-9-]+\]$")
+
+
 def _entries(out: str) -> list[tuple[str | None, int | None, str, str]]:
-    return [(e["file"], e["line"], e["sev"], e["msg"]) for e in diag.parse(out) if e["sev"] in ("error", "note", "warning")]
+    """(file, line, severity, message WITHOUT the trailing `  [code]`) - the form ErrorInfo.message has."""
+    return [(e["file"], e["line"], e["sev"], _CODE_SUFFIX.sub("", e["msg"])) for e in diag.parse(out) if e["sev"] in ("error", "note", "warning")]
 
 
 def insert_ignore(src: str, line: int, comment: str) -> str | None:
@@ -130,6 +134,12 @@ def suppress(files: dict[str, str], flags: list[str], target: str, key: list[Any
                 case["skipped"] = "program has ignore comments (unused-ignore would interfere)"
                 res["cases"].append(case)
                 continue
+            if re.search(r"#\s*mypy:.*(able[-_]error[-_]code|ignore[-_]errors)", "".join(files.values())) or any(
+                    p.endswith((".ini", ".toml", ".cfg")) for p in files):
+                # inline / per-module settings of the enabled-code set take precedence over the command line by design
+                case["skipped"] = "program configures error codes itself"
+                res["cases"].append(case)
+                continue
             r2 = basic.check_typeshed(files, [*BASE, *flags, "--disable-error-code", want[0]], ["main.py"], capture=False)  # type: ignore[index]
         out2 = r2["out"] + r2["err"]
         case["status2"] = r2["status"]
@@ -203,7 +213,8 @@ def suppress(files: dict[str, str], flags: list[str], target: str, key: list[Any
             on_line_either = any(x[1] == L for x in either)
             if must_vanish and unused and not (want and len(want) > 1):
                 bad.append("ignore reported unused although it suppressed something")
-            if not must_vanish and not unused and not on_line_either and r2["status"] != 2:
+            has_syntax = any(i["code"] == "syntax" for i in kept)   # e.g. a rejected file-level ignore: unused-ignore reporting is off
+            if not must_vanish and not unused and not on_line_either and r2["status"] != 2 and not has_syntax:
                 # something may still have been suppressed that run 1 never rendered (duplicates, hidden): only count
                 # it when run 1 had no incoming diagnostics at all on that line
                 incoming = [i for i in base.get("infos") or [] if i["stage"] == "in" and i["file"] in (target, "./" + target) and L in i["span"]]
